@@ -1,8 +1,9 @@
 #!/bin/bash
 # runs every claimed check (quick by default) on the current /repo tree; prints one line per check
-cd /verif
+cd "$(dirname "$0")/.."
+L="${RUNALL_LOG:-/tmp}"
 tier="${1:-quick}"
 for id in $(/venv/bin/python -c "import json;print(' '.join(c['property_id'] for c in json.load(open('MANIFEST.json'))['checks']))"); do
-  /usr/bin/time -f "%es" ./check $id $tier > /tmp/runall_$id.log 2>&1; rc=$?
-  echo "$id rc=$rc $(grep -c VIOLATION /tmp/runall_$id.log) violations | $(grep -E "^C[0-9]+ (quick|thorough):" /tmp/runall_$id.log | tail -1) | $(tail -1 /tmp/runall_$id.log)"
+  /usr/bin/time -f "%es" ./check $id $tier > $L/runall_$id.log 2>&1; rc=$?
+  echo "$id rc=$rc $(grep -c VIOLATION $L/runall_$id.log) violations | $(grep -E "^C[0-9]+ (quick|thorough):" $L/runall_$id.log | tail -1) | $(tail -1 $L/runall_$id.log)"
 done
